@@ -4,7 +4,10 @@
      sort <e>*                                 entries.sort(); Tree::write_to
      write <e>*                                Tree::write_to without sorting (debug_assert)
      bisect <name> <is_dir 0|1> <e>*           TreeRef::bisect_entry on the entries as given
-     bsearch <key> <byte list>                 [u8]::binary_search_by(|x| x.cmp(&key)) *)
+     bsearch <key> <byte list>                 [u8]::binary_search_by(|x| x.cmp(&key))
+     edit (<op> <name> <k>)*                    one-level tree::Editor on an empty root; op = 0..4 upsert of
+                                               kind Tree/Blob/BlobExecutable/Link/Commit, r = remove,
+                                               w = write; a final write is implied *)
 From GixV.Base Require Import Bytes Outcome.
 From GixV.C03 Require Import Model Spec.
 Local Open Scope N_scope.
@@ -54,6 +57,47 @@ Definition show_bsearch (o : outcome (nat + nat) unit) : bytes :=
   | OutOfFuel => bs "HANG"
   end.
 
+Definition kind_mode (k : N) : N :=
+  if N.eqb k 0 then 16384 else if N.eqb k 1 then 33188 else if N.eqb k 2 then 33261
+  else if N.eqb k 3 then 40960 else 57344.
+Definition op_of (o n k : bytes) : edit_op :=
+  if bytes_eqb o (bs "r") then Remove n
+  else if bytes_eqb o (bs "w") then WriteOut
+  else Upsert (kind_mode (match dec_to_N o with Some v => v | None => 4 end)) n (oid_of k).
+Fixpoint parse_ops (fuel : nat) (fs : list bytes) : list edit_op :=
+  match fuel with
+  | O => []
+  | S fuel' =>
+      match fs with
+      | o :: n :: k :: rest => op_of o n k :: parse_ops fuel' rest
+      | _ => []
+      end
+  end.
+
+(* transcript: one item per write, separated by ';' ; stops at the first error; a panic anywhere
+   makes the whole line PANIC (the Rust harness loses everything printed before a panic) *)
+Fixpoint run_edit (acc : bytes) (es : list entry) (ops : list edit_op) : bytes :=
+  match ops with
+  | [] =>
+      match edit_step es WriteOut with
+      | Ok (_, Some (Ok b)) => acc ++ show_write (Ok b)
+      | Ok (_, Some (Err e)) => acc ++ show_write (Err e)
+      | Ok (_, Some OutOfFuel) => bs "HANG"
+      | _ => bs "PANIC"
+      end
+  | op :: ops' =>
+      match edit_step es op with
+      | Ok (es', None) => run_edit acc es' ops'
+      | Ok (es', Some (Ok b)) => run_edit (acc ++ show_write (Ok b) ++ bs ";") es' ops'
+      | Ok (es', Some (Err e)) => acc ++ show_write (Err e)
+      | Ok (es', Some Panic) => bs "PANIC"
+      | Ok (es', Some OutOfFuel) => bs "HANG"
+      | Err EmptyPathComponent => acc ++ bs "err Empty"
+      | Panic => bs "PANIC"
+      | OutOfFuel => bs "HANG"
+      end
+  end.
+
 Definition run_model (fs : list bytes) : bytes :=
   let op := nth_field 0 fs in
   if bytes_eqb op (bs "cmp") then
@@ -71,6 +115,8 @@ Definition run_model (fs : list bytes) : bytes :=
   else if bytes_eqb op (bs "bsearch") then
     let k := match nth_field 1 fs with b :: _ => b2N b | [] => 0 end in
     show_bsearch (binary_search_by (fun x => N.compare (b2N x) k) (nth_field 2 fs))
+  else if bytes_eqb op (bs "edit") then
+    run_edit [] [] (parse_ops (length fs) (tl fs))
   else bs "?".
 
 (* what git itself does with the same case (compared with `harness git`) *)
